@@ -132,8 +132,11 @@ class Ctx:
 
     def violation(self, what, case, signature=None):
         """the implementation itself breaks the property on the concrete `case`"""
-        if len(self.violations) < 50:
-            self.violations.append({"what": what, "case": case, "signature": signature or what})
+        # at most 3 recorded cases per signature, so that a frequent (e.g. known) one cannot crowd out a rare one
+        sig = signature or what
+        n = sum(1 for v in self.violations if v["signature"] == sig)
+        if n < 3 and len(self.violations) < 300:
+            self.violations.append({"what": what, "case": case, "signature": sig})
 
     def proof_break(self, what, detail=""):
         self.proof_breaks.append({"what": what, "detail": detail[-4000:]})
